@@ -182,7 +182,7 @@ def run(ctx):
     drift = []
     rej = collections.Counter()
     if "model-build" not in ctx["broken"]:
-        sub = list(range(0, len(cases), 7 if tier == "quick" else 23))
+        sub = list(range(0, len(cases), 7 if tier == "quick" else 2))
         sub = [i for i in sub if cases[i].get("langs") and len(cases[i]["langs"]) == 1]
         mres = Model().run([case_model(cases[i]) for i in sub])
         for i, m in zip(sub, mres):
